@@ -88,6 +88,9 @@ type store struct {
 	calls  map[string]int
 	curOp  atomic.Int64
 	failed atomic.Int64
+	// onCallbackEnd, when set, runs at the end of every callback that was not made to fail
+	// (used to cancel the caller's context exactly while its store callback is running)
+	onCallbackEnd atomic.Value // func()
 }
 
 func newStore() *store {
@@ -116,7 +119,14 @@ func (s *store) enter(cb, key string) (fail bool, exit func()) {
 	if f {
 		s.failed.Add(1)
 	}
-	return f, func() { c.Add(-1) }
+	return f, func() {
+		if !f {
+			if h, ok := s.onCallbackEnd.Load().(func()); ok && h != nil {
+				h()
+			}
+		}
+		c.Add(-1)
+	}
 }
 
 func (s *store) value(key string) (int, bool) {
@@ -303,7 +313,10 @@ var opNames = []string{"get", "add", "update", "delete", "upd-or-add", "upsert-t
 
 // runOp issues one group operation (blocking until the worker replies).
 func runOp(g *group, st *store, op int, k mux.Hashed2Int, v int) (interface{}, error) {
-	ctx := context.Background()
+	return runOpCtx(context.Background(), g, st, op, k, v)
+}
+
+func runOpCtx(ctx context.Context, g *group, st *store, op int, k mux.Hashed2Int, v int) (interface{}, error) {
 	d := datum{key: keyStr(k), k: k, v: v}
 	switch op {
 	case 0:
@@ -455,13 +468,33 @@ func streamCase(k *engine.Case) {
 			}
 		}
 		st.curOp.Store(int64(i))
+		// the caller's context: live, already cancelled, or cancelled while its store callback runs
+		ctx, cancel := context.WithCancel(context.Background())
+		ctxMode := "live"
+		switch cm := r.Intn(20); {
+		case cm == 0:
+			ctxMode = "cancelled-before-call"
+			cancel()
+		case cm <= 3:
+			ctxMode = "cancelled-inside-callback"
+			st.onCallbackEnd.Store(func() { cancel() })
+		}
 		o, ok := call(d, opNames[op], func() any {
-			v, err := runOp(g, st, op, key, val)
+			v, err := runOpCtx(ctx, g, st, op, key, val)
 			return opRes{v, err}
 		})
+		if ok && ctxMode != "live" {
+			// the caller may have left before the worker finished: wait for the worker to park
+			ok = d.Quiesce()
+		}
+		st.onCallbackEnd.Store(func() {})
+		cancel()
 		if !ok {
 			k.Fail("operation-stuck", "operation %d %s(%v) never returned", i, opNames[op], key)
 			return
+		}
+		if ctxMode != "live" {
+			k.Count("ops_with_cancelled_context", 1)
 		}
 		if pv := o.Panic(); pv != nil {
 			k.Logf("op %d: %s(%v) -> PANIC %v", i, opNames[op], key, pv)
@@ -469,7 +502,8 @@ func streamCase(k *engine.Case) {
 			return
 		}
 		res := o.Result().(opRes)
-		k.Logf("op %d: %s(%v, data=%d) -> (%v, %v)", i, opNames[op], key, val, res.v, res.err)
+		k.Logf("op %d: %s(%v, data=%d) ctx=%s -> (%v, %v)", i, opNames[op], key, val, ctxMode, res.v, res.err)
+		ctxErr := res.err == context.Canceled
 		nf := st.failed.Load() - failedBefore
 		if nf > 0 {
 			k.Count("failures_injected", nf)
@@ -497,7 +531,7 @@ func streamCase(k *engine.Case) {
 				}
 				addCalls := st.calls["add"]
 				st.mu.Unlock()
-				if res.err != mux.ErrDupKey {
+				if res.err != mux.ErrDupKey && !ctxErr {
 					k.Fail("dup-add-not-rejected", "DoAdd(%v) on a cached key returned (%v, %v) instead of ErrDupKey", key, res.v, res.err)
 					return
 				}
@@ -506,7 +540,7 @@ func streamCase(k *engine.Case) {
 					return
 				}
 			}
-			if op == 3 && res.err == nil {
+			if op == 3 && res.err == nil && ctxMode == "live" {
 				if cachedBefore {
 					k.Count("successful_delete_of_cached_key", 1)
 				}
